@@ -512,12 +512,18 @@ def assume(v, cond, truth: bool, boolean: bool = False):
 
 
 def renorm_deep(v):
+    """re-apply the constructors bottom-up (after a substitution that made parts constant)"""
     if not isinstance(v, tuple) or not v:
         return v
-    if v[0] == "bool" and v[1] == "and":
-        out = C(True)
+    if not isinstance(v[0], str):
+        return tuple(renorm_deep(x) if isinstance(x, tuple) else x for x in v)
+    if v[0] in ("c", "sym", "bv", "enum", "idx", "acc", "first", "lit", "unk", "fn"):
+        return v
+    v = (v[0],) + tuple(renorm_deep(x) if isinstance(x, tuple) else x for x in v[1:])
+    if v[0] == "bool" and v[1] in ("and", "or"):
+        out = C(v[1] == "and")
         for x in v[2]:
-            out = mk_and(out, x)
+            out = mk_and(out, x) if v[1] == "and" else mk_or(out, x)
         return out
     return renorm(v)
 
@@ -999,10 +1005,8 @@ class AV:
                     if r1[0] == "pret" or r2[0] == "pret":
                         p1 = r1 if r1[0] == "pret" else ("pret", C(True), r1)
                         p2 = r2 if r2[0] == "pret" else ("pret", C(True), r2)
-                        if p1[2] == p2[2]:
-                            self._phi(cond, f1.env, f2.env, fr)
-                            return ("pret", mk_if(cond, p1[1], p2[1]), p1[2])
-                        return unk("partial returns with different values")
+                        self._phi(cond, f1.env, f2.env, fr)
+                        return ("pret", mk_if(cond, p1[1], p2[1]), p1[2] if p1[2] == p2[2] else mk_if(cond, p1[2], p2[2]))
                     return mk_if(cond, r1, r2)
                 self._merge_if(st, cond, fr)
                 continue
@@ -1019,7 +1023,8 @@ class AV:
                     if any(rr is x for x in (_FALL, _CONT, _BREAK, _MIXED)):
                         return r if (rr is _FALL or rr is _CONT) else unk("partial return followed by a loop exit")
                     if rr[0] == "pret":
-                        return ("pret", mk_or(r[1], rr[1]), r[2]) if rr[2] == r[2] else unk("partial returns with different values")
+                        # the earlier partial return wins where both conditions hold
+                        return ("pret", mk_or(r[1], rr[1]), r[2] if rr[2] == r[2] else mk_if(r[1], r[2], rr[2]))
                     return mk_if(r[1], r[2], rr)
                 if r is not None:
                     return r
@@ -1197,7 +1202,7 @@ class AV:
         known = it
         if known[0] == "c" and isinstance(known[1], tuple):
             known = ("list", tuple(C(x) for x in known[1]))
-        if known[0] == "list" and not any(i[0] in ("spread", "when") for i in known[1]) and len(known[1]) <= 16:
+        if known[0] == "list" and not any(i[0] in ("spread", "when") for i in known[1]) and _unrollable(known[1]):
             # a loop over a known sequence that can leave early is executed element by element
             broke = False
             prets = []
@@ -1217,14 +1222,17 @@ class AV:
                     prets.append(r)
                     continue
                 if prets:
-                    if all(q[2] == r for q in prets):
-                        return r if False else mk_if(_fold_or([q[1] for q in prets]), r, r)
-                    return unk("partial returns with different values")
+                    # earlier iterations returned under conditions; this one returns unconditionally
+                    out = r
+                    for q in reversed(prets):
+                        out = mk_if(q[1], q[2], out)
+                    return out
                 return r
             if prets:
-                if len({q[2] for q in prets}) != 1:
-                    return unk("partial returns with different values")
-                pr = ("pret", _fold_or([q[1] for q in prets]), prets[0][2])
+                pv = prets[-1][2]
+                for q in reversed(prets[:-1]):
+                    pv = mk_if(q[1], q[2], pv)  # the first iteration whose condition holds returns
+                pr = ("pret", _fold_or([q[1] for q in prets]), pv)
                 if not broke and st.orelse and run_else:
                     r = self._run(list(st.orelse), fr, ())
                     if r is _FALL:
@@ -1555,7 +1563,9 @@ class AV:
                     parts.append(("lit", str(v.value)))
                 else:
                     x = self._ev(v.value, fr)
-                    if v.format_spec is not None or v.conversion not in (-1, 115):
+                    if v.format_spec is None and v.conversion == 114:
+                        x = ("call", "repr", (x,), ())  # {x!r} is repr(x)
+                    elif v.format_spec is not None or v.conversion not in (-1, 115):
                         spec = norm(v.format_spec) if v.format_spec is not None else ""
                         x = ("call", "format", (x, C(f"{chr(v.conversion) if v.conversion != -1 else ''}:{spec}")), ())
                     parts.append(("h", x))
@@ -1699,7 +1709,7 @@ class AV:
         known = _unwrap_seq(it)
         if known[0] == "c" and isinstance(known[1], tuple):
             known = ("list", tuple(C(x) for x in known[1]))
-        if known[0] == "list" and not any(i[0] in ("spread", "when") for i in known[1]) and len(known[1]) <= 16:
+        if known[0] == "list" and not any(i[0] in ("spread", "when") for i in known[1]) and _unrollable(known[1]):
             # a comprehension over a known sequence is evaluated element by element (constant propagation)
             out = []
             for k, elem in enumerate(known[1]):
@@ -2513,6 +2523,18 @@ def _attr(base, name):
 
 # methods whose result is a string whatever the receiver (sympy's printer API, str methods)
 STR_METHODS = {"doprint", "_print", "strip", "lstrip", "rstrip", "format", "lower", "upper", "replace", "_get_comment", "_get_statement", "_format"}
+
+
+def _unrollable(items) -> bool:
+    """a known sequence is executed element by element when it is short, or when it is a table of constants
+    (constant propagation through a literal table costs nothing however long the table is)"""
+    if len(items) <= 16:
+        return True
+
+    def const(x):
+        return x[0] == "c" or (x[0] == "list" and all(const(y) for y in x[1]))
+
+    return len(items) <= 512 and all(const(x) for x in items)
 
 
 def _empty_of_same_kind(a, e) -> bool:
